@@ -897,7 +897,7 @@ def correspondence(ctx):
               "Non-trivial = at least one file or an error; distinct = distinct (direction, chunk, filter, shape of "
               "source with sizes and content class relative to the chunk, outcome).")
     r = Rng(ctx.seed).fork("c20")
-    cases = boundary_cases() + [gen_case(r) for _ in range(ctx.budget(150, 4000))]
+    cases = boundary_cases() + [gen_case(r) for _ in range(ctx.budget(120, 4000))]
     rig = Rig()
     impl, lines = [], []
     try:
